@@ -88,6 +88,11 @@ TEXT = {
         note="One external edit per sync (plus the stale follow-up sync). Known findings: TOCTOU windows that only a resourceVersion precondition / re-check would close, and server-side apply on uncontrolled objects.",
         technique="deviation-bounded exploration of environment interleavings + exhaustive schedule exploration (cooperative scheduler) on the real code, request-log oracle",
     ),
+    "C17": dict(
+        level="Model checking of cache immutability and serialisability: (a) exhaustive over rollout histories x configurations x every single fault position with the cache-fingerprint oracle and the hook-reflects-server oracle; (b) exhaustive preemption-bounded schedule exploration of two concurrent workers against the serial outcomes. The 'no data race' clause is additionally probed by a free-running race-detector pass, reported separately as supplementary (it is sampling, not enumeration).",
+        note="Part (c) is outside the model-checking family and only supplementary; a race it reports is real, its silence is not a proof.",
+        technique="exhaustive fault-position enumeration with cache-fingerprint oracle + exhaustive schedule exploration (serialisability); supplementary race-detector pass",
+    ),
 }
 
 PENDING_REASON = "check not built yet in this session (planned in DESIGN.md §4); no claim is made until its check runs clean on the unchanged tree"
